@@ -295,6 +295,13 @@ def replay(prop, path, workdir):
         res = printf.replay(rp, workdir)
         res.violations = [v for v in res.violations if prop in v.get("props", [prop])]
         return res
+    elif rp["kind"] == "testtrace-mbs":
+        res = Result("testtrace-mbs-replay")
+        ev = '{"slack":1,' + json.dumps(rp["event"])[1:]
+        n, bad, st = tlc.validate("TraceMbs", os.path.join(tlc.SPEC, "TraceMbs.cfg"), [ev], workdir, jvms=1)
+        for bd in bad:
+            res.violations.append(dict(desc="recorded event rejected: " + bd["why"], cluster=bd["why"], slug="tt-mbs-replay", dev="", replay=rp))
+        return res
     elif rp["kind"] == "testtrace":
         return testtrace.replay(rp, workdir, prop)
     elif rp["kind"] == "osenv":
